@@ -463,7 +463,7 @@ func vC14PvRunInBubble(t *testing.T, c *vh.Case, sc vC14PvScn, target int) *vC14
 
 func TestVerif_C14_provider(t *testing.T) {
 	vh.Run(t, vh.Spec{Prop: "C14", Unit: "provider", Quick: 40, Thorough: 1500, CostMs: 200,
-		Rule: "PRNG SweepingProvider (25-120 simulated peers 20% unreachable, router 5-400 ms, sends 5-300 ms, aborted sends linger 1-25 ms; keystore internal / external plain / external resettable with a ResetCids in flight; reprovide interval 2 min - 1 h; 6 worker configurations) with 2-8 StartProviding/ProvideOnce/StopProviding/Clear/RefreshSchedule/AddToSchedule calls over 4 vs; boundary events counted after the initial measurement; reference run closes after everything (incl. a reprovide cycle for short intervals), re-runs Close at 2 events on a provider goroutine's stack and 3 PRNG indices (thorough: up to 64); non-trivial = Close with router/sender calls in flight",
+		Rule:    "PRNG SweepingProvider (25-120 simulated peers 20% unreachable, router 5-400 ms, sends 5-300 ms, aborted sends linger 1-25 ms; keystore internal / external plain / external resettable with a ResetCids in flight; reprovide interval 2 min - 1 h; 6 worker configurations) with 2-8 StartProviding/ProvideOnce/StopProviding/Clear/RefreshSchedule/AddToSchedule calls over 4 vs; boundary events counted after the initial measurement; reference run closes after everything (incl. a reprovide cycle for short intervals), re-runs Close at 2 events on a provider goroutine's stack and 3 PRNG indices (thorough: up to 64); non-trivial = Close with router/sender calls in flight",
 		Clauses: []string{"baseline-clean", "close-returns-in-bound", "no-goroutine-after-close", "close-again-returns", "api-no-panic", "no-goroutine-after-2min"}},
 		func(c *vh.Case) {
 			r := c.R
@@ -499,7 +499,7 @@ func TestVerif_C14_provider(t *testing.T) {
 
 func TestVerifRace_C14_provider_early(t *testing.T) {
 	vh.Run(t, vh.Spec{Prop: "C14", Unit: "provider_early", Quick: 24, Thorough: 600, CostMs: 60, WallS: 240,
-		Rule: "real time under -race: SweepingProvider over the simulated swarm (router 0-4 ms, failing for the first 0-20 ms in half of the cases so that the measurement retries, sends 0-3 ms), keystore internal / external plain / external resettable, StartProviding of 1-20 keys right after construction and again concurrently with Close; Close after a PRNG 0-30 ms; verdict = Close returned and no goroutine started by the provider is left (polled; the only time bound is the wall-clock watchdog = inconclusive), second Close returns; non-trivial = Close began before the provider was online or with calls in flight",
+		Rule:    "real time under -race: SweepingProvider over the simulated swarm (router 0-4 ms, failing for the first 0-20 ms in half of the cases so that the measurement retries, sends 0-3 ms), keystore internal / external plain / external resettable, StartProviding of 1-20 keys right after construction and again concurrently with Close; Close after a PRNG 0-30 ms; verdict = Close returned and no goroutine started by the provider is left (polled; the only time bound is the wall-clock watchdog = inconclusive), second Close returns; non-trivial = Close began before the provider was online or with calls in flight",
 		Clauses: []string{"close-returns", "no-goroutine-after-close", "close-again-returns"}},
 		func(c *vh.Case) {
 			r := c.R
